@@ -1012,6 +1012,32 @@ def state_contract(col, g, tier):
         return True, None
     col.check("repeated-use-of-one-grid", chk, inputs=inp)
 
+    # several grids in one process that share method and degrees but differ in rotation seed / centre: the decomposition of each
+    # must be exact for its own orientation (no state may be shared between instances)
+    for method in ("lebedev", "maxdet"):
+        base = grid_spec(g, method, "mixed", "positive", tier)
+
+        def chk2(base=base):
+            seeds = [0, 11, 12, 0]
+            centres = [[0.0, 0.0, 0.0], [0.3, -0.2, 0.5], [0.0, 0.0, 0.0], [0.1, 0.0, 0.0]]
+            for sd, ctr in zip(seeds, centres):
+                spec2 = dict(base, rotate=sd, center=ctr)
+                gr = make_grid(spec2)
+                band = min(int(np.min(gr.degrees)) // 2, L_CAP)
+                fs = func_spec(g, band, True)
+                fv = eval_function(fs, gr)
+                splines = gr.radial_component_splines(fv)
+                r = gr.rgrid.points
+                want = g_radial(fs, r)                                # rows (l,m) x shells
+                got = np.array([sp(r) for sp in splines])[: want.shape[0]]
+                if not np.allclose(got, want, rtol=1e-9, atol=1e-9 * max(1.0, float(np.max(np.abs(want))))):
+                    return False, f"grid with rotation seed {sd} built after other grids of the same method/degrees: splines miss g_lm(r_i) by {float(np.max(np.abs(got - want))):.3g}"
+                vals = np.asarray(gr.interpolate(fv)(gr.points), dtype=float)
+                if not np.allclose(vals, fv, rtol=1e-9, atol=1e-9 * max(1.0, float(np.max(np.abs(fv))))):
+                    return False, f"grid with rotation seed {sd}: the interpolant does not reproduce the grid values"
+            return True, None
+        col.check(f"several-instances-same-degrees-different-rotation:{method}", chk2, inputs={"grid": base})
+
 
 # ----------------------------------------------------------------------------------------------------------------------
 # oracle self check (the driver's own harmonics against SciPy's complex harmonics)
